@@ -77,6 +77,84 @@ func checkC14(c *Ctx) {
 	c14Go(c, pk)
 	c14Rego(c)
 	c14NoPartialIndex(c)
+	c14TraceNode(c)
+}
+
+// K6: a trace is located through its trace node. Custom Rego may name another node with the $traceNode placeholder; the
+// generator must then report the variable it substituted for the placeholder as the trace node whenever the placeholder
+// occurs at all, and the focus variable otherwise. Decided on the value of the result's TraceNode field (E-sym): it is a
+// choice on exactly `strings.Contains(<code>, "$traceNode")`.
+func c14TraceNode(c *Ctx) {
+	r, p := c.R, c.P
+	r.Rule("C14.K6", "custom Rego: the trace node is the substituted $traceNode variable exactly when the placeholder occurs", 1)
+	gen := p.Pkg("internal/generator")
+	if gen == nil {
+		return
+	}
+	found := 0
+	for _, f := range gen.Syntax {
+		for _, d := range f.Decls {
+			fd, ok := d.(*ast.FuncDecl)
+			if !ok || fd.Body == nil {
+				continue
+			}
+			mentions := false
+			ast.Inspect(fd.Body, func(n ast.Node) bool {
+				if bl, ok := n.(*ast.BasicLit); ok && strings.Contains(bl.Value, "$traceNode") {
+					mentions = true
+				}
+				return true
+			})
+			if !mentions {
+				continue
+			}
+			key := relOf(gen) + "." + fd.Name.Name
+			var replaced *Sym
+			var traceVals []*Sym
+			proto := &symWalker{}
+			proto.OnCall = func(w *symWalker, call *ast.CallExpr, fn types.Object, args []*Sym, result *Sym) {
+				if funcFullName(fn) == "strings.ReplaceAll" && len(args) == 3 {
+					if needle, ok := args[1].ConstString(); ok && needle == "$traceNode" {
+						replaced = args[2]
+					}
+				}
+			}
+			proto.OnStore = func(w *symWalker, at ast.Node, target *Sym, k *Sym, v *Sym) {}
+			proto.OnReturn = func(w *symWalker, ret *ast.ReturnStmt, results []*Sym) {
+				for _, res := range results {
+					res.Walk(func(s *Sym) {
+						if s.K == symStruct {
+							if tn, ok := s.Fields["TraceNode"]; ok {
+								traceVals = append(traceVals, tn)
+							}
+						}
+					})
+				}
+			}
+			p.SymWalk(gen, fd, proto, nil)
+			if replaced == nil || len(traceVals) == 0 {
+				r.Unknown("C14.K6", key, p.Pos(fd.Pos()), "the substitution of $traceNode or the TraceNode of the result was not recognised")
+				continue
+			}
+			found++
+			tn := traceVals[0]
+			okv := false
+			why := "the TraceNode of the result is " + tn.String()
+			if tn.K == symChoice && len(tn.Parts) == 2 {
+				cond := tn.Alts[0]
+				isContains := strings.HasPrefix(cond, "strings.Contains(") && strings.HasSuffix(cond, `,"$traceNode")`)
+				if isContains && tn.Parts[0].String() == replaced.String() && tn.Parts[1].K == symField {
+					okv = true
+				} else if !isContains {
+					why = "the trace node switches to the substituted variable under the condition " + cond + ", not exactly when the code mentions $traceNode: a form of binding the condition does not recognise (`:=`, `x = $traceNode`) leaves the trace on the focus node and the trace carries the wrong node's location"
+				}
+			}
+			r.Check(okv, "C14.K6", key, p.Pos(fd.Pos()), "TraceNode = substituted variable if strings.Contains(code, \"$traceNode\") else the focus variable", why)
+		}
+	}
+	if found == 0 {
+		r.Unknown("C14.K6", "custom-rego-generator", "", "no generator function mentioning $traceNode was evaluated")
+	}
 }
 
 // K5: the lexical index is all or nothing. A recover() that swallows a panic while the index is being built (and lets the
@@ -568,10 +646,19 @@ func c14Rego(c *Ctx) {
 	}
 
 	// ---- K4
+	resultConstructorVariants(c, rp, "C14.K4")
+}
+
+// resultConstructorVariants: error() and trace() are total. Each has exactly two clauses guarded by location(x) /
+// not location(x) on the same parameter, so exactly one fires for every node; the located clause adds the computed
+// location and nothing else differs. (C14.K4; also a necessary condition of C01: where neither clause fires the rule
+// body is undefined and a failing node is silently not reported.)
+func resultConstructorVariants(c *Ctx, rp *regoPreamble, rid string) {
+	r := c.R
 	for _, name := range []string{"error", "trace"} {
 		rules := rp.rulesNamed(name)
 		if len(rules) != 2 {
-			r.Bad("C14.K4", name+"()", "", fmt.Sprintf("%d variants of %s(), expected two (with and without location)", len(rules), name))
+			r.Bad(rid, name+"()", "", fmt.Sprintf("%d variants of %s(), expected two (with and without location)", len(rules), name))
 			continue
 		}
 		var with, without *rast.Rule
@@ -589,7 +676,7 @@ func c14Rego(c *Ctx) {
 			}
 		}
 		if with == nil || without == nil {
-			r.Bad("C14.K4", name+"()", "", "the two variants of "+name+"() are not guarded by location(x) / not location(x)")
+			r.Bad(rid, name+"()", "", "the two variants of "+name+"() are not guarded by location(x) / not location(x)")
 			continue
 		}
 		// same guard argument: the focus node parameter in both
@@ -618,7 +705,7 @@ func c14Rego(c *Ctx) {
 			return -1
 		}
 		sameArg := ga != "" && gb != "" && focusIdx(with, ga) == focusIdx(without, gb) && focusIdx(with, ga) >= 0
-		r.Check(sameArg, "C14.K4", name+"#guard", "", "both variants test location() of the same parameter: exactly one fires", fmt.Sprintf("the variants of %s() test location() of different arguments (%q / %q): both or neither may fire", name, ga, gb))
+		r.Check(sameArg, rid, name+"#guard", "", "both variants test location() of the same parameter: exactly one fires", fmt.Sprintf("the variants of %s() test location() of different arguments (%q / %q): both or neither may fire", name, ga, gb))
 		objOf := func(rl *rast.Rule) *rast.Term {
 			v := refHeadName(rl.Head.Value)
 			for _, a := range bodyAssignments(rl.Body) {
@@ -630,7 +717,7 @@ func c14Rego(c *Ctx) {
 		}
 		ow, on := objOf(with), objOf(without)
 		if ow == nil || on == nil {
-			r.Unknown("C14.K4", name+"#objects", "", "the constructed objects were not found")
+			r.Unknown(rid, name+"#objects", "", "the constructed objects were not found")
 			continue
 		}
 		kw, kn := objectKeys(ow), objectKeys(on)
@@ -657,7 +744,7 @@ func c14Rego(c *Ctx) {
 				}
 			}
 		}
-		r.Check(okKeys && locOK, "C14.K4", name+"#variants", "", "the located variant adds exactly the computed location; all other keys agree", fmt.Sprintf("the two variants of %s() differ in more than the location key, or the location is not the one computed for the same node (with: %v, without: %v)", name, kw, kn))
+		r.Check(okKeys && locOK, rid, name+"#variants", "", "the located variant adds exactly the computed location; all other keys agree", fmt.Sprintf("the two variants of %s() differ in more than the location key, or the location is not the one computed for the same node (with: %v, without: %v)", name, kw, kn))
 	}
 }
 
